@@ -3,7 +3,12 @@
    Deterministic monitor over the timed event sequence recorded around the real
    HSFZTransport/HSFZConnection (same event vocabulary as DoipContract):
 
-     Feed(t, f)  Out(t, f)  Begin(t, op, tmo, d)  End(t, op, res, d)  Closed(t)  Final(t, drained)
+     Feed(t, f, c)  Out(t, f, c)  Begin(t, op, tmo, d)  End(t, op, res, d)  Closed(t, c)  Final(t, drained)
+     Conn(t, n)  Cut(t, c, how)
+
+   The gateway stays reachable for the whole execution: Conn(t, n) is the n-th TCP connection the client opens
+   (n = 1: the one of connect()), c is the number of the connection a frame was written to / fed to, Cut is the
+   gateway ending connection c (FIN) behind what it has sent.
 
    Fed frames:   k \in {"Ack","Data","Alive","Short","Status","Err"}; src, dst (1-byte addresses of the
                  2-byte address header), d (payload), cw (control word)
@@ -16,6 +21,14 @@
      H3  alive checks are answered immediately with the tester address
      H4  error control words surface as a connection error and close the connection
      H5  frames skipped while waiting for an ack stay available to later reads
+   A write is bound to the connection its request was written to: only an Ack arriving THERE acknowledges it
+   (H2), an error control word arriving there before the Ack has to surface (H4), and the request is
+   transmitted once (H2) -- an Ack obtained for a re-transmission on a connection that the write opened by
+   itself does not make "this write" acknowledged.  Likewise an operation that meets an error control word ends
+   with a connection error (H4); it does not carry on on a connection which it opened by itself.
+   Opening connections is not judged as such (who reconnects, and when, is the subject of property C08): the
+   monitor follows the newest connection -- with a new connection the connection-specific part of its state
+   starts afresh -- and an operation that opens one and then ENDS WITH A CONNECTION ERROR is accepted.
    Left open: status control words (Klemme15, VIN, status data inquiry, undefined words): whatever
    follows one is not judged except that delivered data stays in order; short frames (no address
    header) of kind Ack/Data must simply have no effect; a caller timeout not longer than the ack
@@ -34,10 +47,24 @@ M0 == [sent |-> <<>>, ndel |-> 0, alive |-> <<>>, op |-> "none", t0 |-> 0, tmo |
        closedAt |-> -1, errAt |-> -1, errN |-> 0, status |-> FALSE, fail |-> "ok",
        \* an operation of the caller has already ended with an error (the connection's failure has surfaced)
        failed |-> FALSE,
+       \* newest connection of the client; the connection the pending write was written to (at Begin: the newest);
+       \* a connection was opened while the pending foreground operation was running, and the time of an error
+       \* control word that had arrived on the replaced connection without having surfaced (-1: none);
+       \* the gateway has cut the (newest) connection
+       conn |-> 0, opc |-> 0, reconn |-> FALSE, oerr |-> -1, cutAt |-> -1,
        \* a read issued by ANOTHER task of the caller and still pending (op "bgread"); at most one
        bg |-> [on |-> FALSE, t0 |-> 0, tmo |-> -1]]
 
 Fail(m, label) == [m EXCEPT !.fail = label]
+
+\* a new connection: nothing of what arrived on / was owed on the previous one can be delivered or answered any more
+ResetConn(m) == [m EXCEPT !.sent = <<>>, !.ndel = 0, !.alive = <<>>, !.closedAt = -1, !.errAt = -1, !.errN = 0,
+                          !.status = FALSE, !.failed = FALSE, !.cutAt = -1, !.unspec = FALSE, !.unspecNext = FALSE]
+
+OnConn(m, e) ==
+  IF m.op = "none" THEN ResetConn([m EXCEPT !.conn = e.n])
+  ELSE ResetConn([m EXCEPT !.conn = e.n, !.reconn = TRUE,
+                           !.oerr = IF m.oerr # -1 THEN m.oerr ELSE IF m.failed THEN -1 ELSE m.errAt])
 
 Min(a, b) == IF a < b THEN a ELSE b
 First5(d) == SubSeq(d, 1, Min(5, Len(d)))
@@ -47,20 +74,22 @@ AckForUs(c, f)  == f.src = c.tester /\ f.dst = c.ecu
 \* the earlier of the acknowledgement deadline and the caller's own deadline
 WriteDeadline(c, m) == IF m.tmo # -1 /\ m.tmo < c.ackTime THEN m.t0 + m.tmo ELSE m.t0 + c.ackTime
 
-OnFeed(c, m, t, f) ==
+\* cn: number of the connection the frame was fed to
+OnFeed(c, m, t, f, cn) ==
   CASE f.k = "Data" /\ DataForUs(c, f) ->
          \* a message behind an error word can never be reached: it does not count as deliverable
          IF m.errAt # -1 THEN m ELSE [m EXCEPT !.sent = Append(@, [d |-> f.d, t |-> t])]
     [] f.k = "Alive" -> [m EXCEPT !.alive = Append(@, t + AliveGraceMs)]
     [] f.k = "Ack" /\ AckForUs(c, f) ->
-         IF m.op = "write" /\ m.decisive = "none" /\ f.d = First5(m.d) /\ m.errAt = -1
+         \* H2: the Ack of a write is one that arrives on the connection the request was written to
+         IF m.op = "write" /\ m.decisive = "none" /\ f.d = First5(m.d) /\ m.errAt = -1 /\ cn = m.opc
          THEN [m EXCEPT !.decisive = IF t > WriteDeadline(c, m) - SlackMs THEN "late" ELSE "pos"]
          ELSE [m EXCEPT !.unspecNext = TRUE]
     [] f.k = "Err" -> IF m.errAt = -1 THEN [m EXCEPT !.errAt = t, !.errN = Len(m.sent)] ELSE m
     [] f.k = "Status" -> [m EXCEPT !.status = TRUE]
     [] OTHER -> m
 
-OnOut(c, m, t, f) ==
+OnOut(c, m, t, f, cn) ==
   CASE f.k = "AliveResp" ->
          IF f.src # c.tester THEN Fail(m, "H3/alive-response-does-not-carry-the-tester-address")
          ELSE IF m.alive = <<>> THEN m
@@ -68,13 +97,18 @@ OnOut(c, m, t, f) ==
          ELSE [m EXCEPT !.alive = Tail(@)]
     [] f.k = "Data" ->
          IF m.op = "write" /\ ~m.wrote /\ f.src = c.tester /\ f.dst = c.ecu /\ f.d = m.d
-         THEN [m EXCEPT !.wrote = TRUE]
+         THEN [m EXCEPT !.wrote = TRUE, !.opc = cn]
+         \* H2: one write() = one transmission of the request, whatever connection it travels on
+         ELSE IF m.op = "write" /\ m.wrote /\ f.src = c.tester /\ f.dst = c.ecu /\ f.d = m.d
+         THEN Fail(m, IF cn # m.opc THEN "H2/request-transmitted-again-on-another-connection"
+                                    ELSE "H2/request-transmitted-more-than-once")
          ELSE Fail(m, "H2/frame-on-the-wire-is-not-the-written-message")
     [] OTHER -> Fail(m, "wire/unexpected-frame-written")
 
 OnBegin(c, m, e) ==
   IF e.op = "bgread" THEN [m EXCEPT !.bg = [on |-> TRUE, t0 |-> e.t, tmo |-> e.tmo]] ELSE
   [m EXCEPT !.op = e.op, !.t0 = e.t, !.tmo = e.tmo, !.d = e.d, !.decisive = "none", !.wrote = FALSE,
+            !.opc = m.conn, !.reconn = FALSE, !.oerr = -1,
             !.unspec = (m.unspec \/ m.unspecNext)]
 
 \* messages for us that a read may still deliver: those fed before any error word
@@ -93,6 +127,10 @@ EndReadG(c, m, e, t0, tmo) ==
          THEN Fail(m, "H5/message-for-us-available-but-read-timed-out")
          ELSE IF m.closedAt = -1 /\ m.errAt # -1 /\ m.errAt < e.t - SlackMs /\ m.ndel >= Deliverable(m)
          THEN Fail(m, "H4/error-control-word-did-not-surface")
+         \* ... also when the connection was closed (and maybe replaced) on the quiet: as long as no operation
+         \* of the caller has failed, the error control word has not surfaced
+         ELSE IF ~m.failed /\ m.errAt # -1 /\ m.errAt < e.t - SlackMs /\ m.ndel >= Deliverable(m)
+         THEN Fail(m, "H4/error-control-word-swallowed-connection-closed-without-a-connection-error")
          ELSE IF tmo = -1 \/ e.t < t0 + tmo THEN Fail(m, "read/timeout-before-the-caller-deadline")
          ELSE m
     [] e.res \in {"ConnErr", "OsErr"} ->
@@ -106,6 +144,8 @@ EndReadG(c, m, e, t0, tmo) ==
          ELSE IF e.res = "OsErr" /\ ~m.failed THEN Fail(m, "H4/error-control-word-did-not-surface-as-connection-error")
          ELSE IF m.closedAt # -1 THEN m
          ELSE IF m.errAt # -1 THEN Fail(m, "H4/connection-not-closed-after-error-control-word")
+         ELSE IF m.cutAt # -1 THEN m  \* the gateway has ended the connection (what follows a cut: property C08)
+         ELSE IF m.reconn THEN m      \* it failed on the connection that was replaced meanwhile
          ELSE Fail(m, "H1/read-failed-on-an-open-connection")
     [] OTHER -> Fail(m, "read/unexpected-exception")
 
@@ -118,15 +158,21 @@ EndWrite(c, m, e) ==
   CASE e.res = "ok" ->
          IF ~m.wrote THEN Fail(m, "H2/write-completed-without-transmission")
          ELSE IF m.decisive \in {"pos", "late"} THEN m
+         \* no Ack on the connection the request was written to: the write must not complete; whatever happened
+         \* on a connection which the write opened by itself (an Ack for a re-transmission ...) does not acknowledge it
+         ELSE IF m.reconn THEN Fail(m, "H2/write-completed-without-acknowledgement-on-the-connection-it-was-written-to")
          ELSE Fail(m, "H2/write-completed-without-acknowledgement")
     [] e.res = "OsErr" -> IF m.failed THEN m ELSE Fail(m, "H4/failure-did-not-surface-as-connection-error")
     [] e.res = "ConnErr" ->
          IF m.decisive = "pos" THEN Fail(m, "H2/write-failed-although-acknowledged")
          ELSE IF m.decisive = "late" THEN m
+         \* the write opened a connection and reports a connection error of the one it was written to: not judged
+         ELSE IF m.reconn /\ m.opc # m.conn THEN m
          ELSE IF m.errAt # -1 THEN
               (IF m.closedAt # -1 THEN m ELSE Fail(m, "H4/connection-not-closed-after-error-control-word"))
          ELSE IF e.t > m.t0 + c.ackTime + SlackMs THEN Fail(m, "H2/connection-error-later-than-the-ack-timeout")
-         ELSE IF e.t < m.t0 + c.ackTime - SlackMs /\ m.closedAt = -1 THEN Fail(m, "H2/write-failed-before-the-ack-timeout")
+         ELSE IF e.t < m.t0 + c.ackTime - SlackMs /\ m.closedAt = -1 /\ m.cutAt = -1
+         THEN Fail(m, "H2/write-failed-before-the-ack-timeout")
          ELSE m
     [] e.res = "Timeout" ->
          IF m.decisive = "pos" THEN Fail(m, "H2/write-timed-out-although-acknowledged")
@@ -137,7 +183,12 @@ EndWrite(c, m, e) ==
 OnEnd(c, m, e) ==
   IF e.op = "bgread" THEN [EndReadG(c, m, e, m.bg.t0, m.bg.tmo) EXCEPT !.bg.on = FALSE,
                                                                        !.failed = (@ \/ e.res \notin {"ok", "Timeout"})] ELSE
-  LET m1 == CASE e.op = "read" -> EndRead(c, m, e)
+  LET m1 == \* H4: an error control word had arrived on the connection of this operation; the operation replaced
+            \* the connection and ends without a connection error: the error control word is swallowed for good
+            IF m.reconn /\ m.oerr # -1 /\ m.oerr < e.t - SlackMs /\ e.res \in {"ok", "Timeout"}
+            THEN Fail(m, "H4/error-control-word-swallowed-operation-went-on-on-a-connection-it-opened-itself")
+            ELSE
+            CASE e.op = "read" -> EndRead(c, m, e)
               [] e.op = "write" -> EndWrite(c, m, e)
               [] OTHER -> m
   IN [m1 EXCEPT !.op = "none", !.failed = (@ \/ e.res \notin {"ok", "Timeout"})]
@@ -154,11 +205,13 @@ Overdue(c, m, t) == m.alive # <<>> /\ Head(m.alive) < t /\ (m.closedAt = -1 \/ m
 Step(c, m, e) ==
   IF Overdue(c, m, e.t) THEN Fail(m, "H3/alive-check-not-answered-immediately")
   ELSE
-  CASE e.e = "Feed"   -> OnFeed(c, m, e.t, e.f)
-    [] e.e = "Out"    -> OnOut(c, m, e.t, e.f)
+  CASE e.e = "Feed"   -> IF e.c = m.conn THEN OnFeed(c, m, e.t, e.f, e.c) ELSE m  \* the rest of a frame for a replaced connection
+    [] e.e = "Out"    -> OnOut(c, m, e.t, e.f, e.c)
+    [] e.e = "Conn"   -> OnConn(m, e)
+    [] e.e = "Cut"    -> IF m.cutAt = -1 /\ e.c = m.conn THEN [m EXCEPT !.cutAt = e.t] ELSE m
     [] e.e = "Begin"  -> OnBegin(c, m, e)
     [] e.e = "End"    -> OnEnd(c, m, e)
-    [] e.e = "Closed" -> IF m.closedAt = -1 THEN [m EXCEPT !.closedAt = e.t] ELSE m
+    [] e.e = "Closed" -> IF m.closedAt = -1 /\ e.c = m.conn THEN [m EXCEPT !.closedAt = e.t] ELSE m
     [] e.e = "Final"  -> OnFinal(c, m, e)
     [] OTHER          -> Fail(m, "trace/unknown-event")
 =============================================================================
